@@ -83,7 +83,7 @@ def run(ctx):
     ok = len(zero) == 1 and not zero[0].guards and len(word) == 1 and len(dr) == 2
     if ok:
         ok = fx.assigns.index(zero[0]) < fx.assigns.index(word[0]) and \
-            B.equivalent(word[0].eff(), B.from_expr(f"sel & (bus.adr[:{k}] == i)"))
+            q.EQ(word[0], B.from_expr(f"sel & (bus.adr[:{k}] == i)"))
     ctx.ob("R1", BUS, "CSRBank", "dat_r: zero first, then the addressed word under sel (registered)", ok,
            "" if ok else f"{[(a.v, a.gtext()) for a in dr]}: a bank that is not addressed would not drive zero onto the OR-combined bus",
            word[0].line if word else 0)
@@ -98,7 +98,7 @@ def run(ctx):
     ok = len(sr) == 1 and sr[0].v == "sel" and not sr[0].guards
     ctx.ob("R1", BUS, "SRAM", "sel_r is the registered sel (data returns one cycle later)", ok, "" if ok else f"{[(a.v, a.gtext()) for a in sr]}")
     for a in fx.find(domain="comb", target="bus.dat_r"):
-        ok = B.equivalent(a.eff(), B.A("sel_r"))
+        ok = q.EQ(a, B.A("sel_r"))
         ctx.ob("R1", BUS, "SRAM", "dat_r driven only under sel_r", ok, "" if ok else f"under {a.gtext()}", a.line)
     for a in fx.find(domain="comb", target="port.we"):
         ok = B.entails(B.from_expr(a.value), B.from_expr("sel & bus.we")) and ("read_only", False) in a.pyguards
@@ -126,16 +126,16 @@ def run(ctx):
     ok = nbt in ("min(size - i * busword, busword)", "min(self.size - i * busword, busword)")
     ctx.ob("R2", CSR, "CSRStorage.do_finalize", "nbits = min(size - i*busword, busword)", ok, "" if ok else f"nbits = {nbt}")
     plain = [a for a in fxs.find(domain="sync") if a.t == "self.storage[i * busword:i * busword + nbits]"]
-    ok = len(plain) == 1 and plain[0].v == "sc.r" and B.equivalent(plain[0].eff(), B.A("sc.re"))
+    ok = len(plain) == 1 and plain[0].v == "sc.r" and q.EQ(plain[0], B.A("sc.re"))
     ctx.ob("R2", CSR, "CSRStorage.do_finalize", "non-atomic: word i written through the same slice under its own strobe", ok,
            "" if ok else f"{[(a.t, a.v, a.gtext()) for a in fxs.find(domain='sync')]}", plain[0].line if plain else 0)
     bs = [a for a in fxs.find(domain="sync") if a.t.startswith("backstore[")]
     ok = len(bs) == 1 and bs[0].t == "backstore[i * busword - busword:i * busword + nbits - busword]" and bs[0].v == "sc.r" and \
-        B.equivalent(bs[0].eff(), B.A("sc.re")) and ("i", True) in bs[0].pyguards
+        q.EQ(bs[0], B.A("sc.re")) and ("i", True) in bs[0].pyguards
     ctx.ob("R2", CSR, "CSRStorage.do_finalize", "atomic: words != 0 go to backstore[lo-busword : hi-busword] under their strobe", ok,
            "" if ok else f"{[(a.t, a.v, a.gtext(), a.pyguards) for a in bs]}", bs[0].line if bs else 0)
     cm = [a for a in fxs.find(domain="sync", target="self.storage") if "backstore" in a.v]
-    ok = len(cm) == 1 and cm[0].v == "Cat(sc.r, backstore)" and B.equivalent(cm[0].eff(), B.A("sc.re")) and \
+    ok = len(cm) == 1 and cm[0].v == "Cat(sc.r, backstore)" and q.EQ(cm[0], B.A("sc.re")) and \
         ("i", False) in cm[0].pyguards
     ctx.ob("R2", CSR, "CSRStorage.do_finalize", "atomic: word 0 commits Cat(sc.r, backstore) under its strobe", ok,
            "" if ok else f"{[(a.v, a.gtext(), a.pyguards) for a in cm]}", cm[0].line if cm else 0)
@@ -143,7 +143,7 @@ def run(ctx):
     ok = len(re_) == 1 and re_[0].v == "sc.re" and not re_[0].guards and not re_[0].loops
     ctx.ob("R2", CSR, "CSRStorage.do_finalize", "re = registered strobe of the last iterated word", ok, "" if ok else f"{[(a.v, a.loops) for a in re_]}")
     dev = [a for a in fxs.find(domain="sync", target="self.storage") if a.v == "self.dat_w"]
-    ok = len(dev) == 1 and B.equivalent(dev[0].eff(), B.A("self.we")) and ("write_from_dev", True) in dev[0].pyguards
+    ok = len(dev) == 1 and q.EQ(dev[0], B.A("self.we")) and ("write_from_dev", True) in dev[0].pyguards
     ctx.ob("R2", CSR, "CSRStorage.__init__", "device write: separate assignment under self.we", ok, "" if ok else f"{[(a.v, a.gtext()) for a in dev]}")
     fxt = FX(ctx, CSR, cls="CSRStatus", entries=("__init__", "do_finalize"))
     fail_closed(ctx, fxt, "CSRStatus")
@@ -152,7 +152,7 @@ def run(ctx):
     ctx.ob("R2", CSR, "CSRStatus.do_finalize", "word i reads status[i*busword : +nbits]", ok, "" if ok else f"{[a.v for a in rd]}")
     wr = [a for a in fxt.find(domain="sync") if a.t.startswith("self.r[")]
     ok = len(wr) == 1 and wr[0].t == "self.r[i * busword:i * busword + nbits]" and wr[0].v == "sc.r" and \
-        B.equivalent(wr[0].eff(), B.A("sc.re")) and ("read_only", False) in wr[0].pyguards
+        q.EQ(wr[0], B.A("sc.re")) and ("read_only", False) in wr[0].pyguards
     ctx.ob("R2", CSR, "CSRStatus.do_finalize", "writable status: word i written through the same slice under its strobe", ok,
            "" if ok else f"{[(a.t, a.v, a.gtext()) for a in wr]}")
     we = fxt.find(domain="comb", target="self.we")
@@ -281,7 +281,7 @@ def run(ctx):
     ok = len(fl) == 2 and all(a.v == "self.storage[field.offset:field.offset + field.size]" for a in fl)
     ctx.ob("R3", CSR, "CSRStorage.__init__", "field = storage[offset : offset+size]", ok, "" if ok else f"{[a.v for a in fl]}")
     pul = [a for a in fl if ("field.pulse", True) in a.pyguards]
-    ok = len(pul) == 1 and B.equivalent(pul[0].eff(), B.A("self.re"))
+    ok = len(pul) == 1 and q.EQ(pul[0], B.A("self.re"))
     ctx.ob("R3", CSR, "CSRStorage.__init__", "pulse fields visible only in the write-strobe cycle", ok, "" if ok else f"{[(a.gtext(), a.pyguards) for a in pul]}")
     sf = [a for a in fxt.find(domain="comb") if a.t.startswith("self.status[")]
     ok = len(sf) == 1 and sf[0].t == "self.status[fields[_field].offset:fields[_field].offset + fields[_field].size]" and \
